@@ -47,8 +47,21 @@ THEOREMS = [
     "C15.kb_linearizable_complete",
     "C15.kb_concurrent_consistent",          # => index exact / sorted / unique names / lookup = latest after any concurrent execution
     "C15.kb_history_linearizable",           # same, in the vocabulary of the runtime oracle (Event / RespectsRealTime / Replays)
+    # PROGRESS of the data-carrying machine (Theorems2.lean / Live.lean)
+    "C15.data_machine_deadlock_free",        # ordered rows + a free lock is granted to a waiter => some pending call can always progress
+    "C15.data_machine_step_measure",         # every step decreases the call's mandatory-step count or is a stutter (re-read / write)
+    "C15.data_machine_progress_bounded",     # <= sum(3|row|+3) non-stutter steps in any execution of n calls
+    "C15.data_machine_terminates_under_fairness",  # an infinite execution is eventually only stutters: finitely many => finite
+    "C15.data_machine_fair_run_completes",   # scheduled runs: fairness (no starvation of enabled progress, finite loops) => every call returns
+    "C15.data_machine_maximal_complete",     # nothing but fresh invocations possible => no call pending
+    "C15.data_machine_can_always_complete",  # from every reachable configuration all invoked calls can be completed within 2*Mu steps
+    "C15.kb_calls_can_complete",             # ... for the regenerated table, and the completed execution is linearizable
+    "C15.kb_maximal_complete",               # for the regenerated table: no deadlock; maximal executions are complete AND linearizable
+    # the bodies against the source: write footprints re-extracted from the text on every run (Generated kbWrites)
+    "C15.table_writes_match_model",          # decide: the components a method writes through a guard = what Model.step may change
+    "C15.write_guards_all_used",             # decide: written components = the locks taken in write mode (no unused write guard)
 ]
-LEAN_TARGETS = ["RreModel.C15.Theorems"]
+LEAN_TARGETS = ["RreModel.C15.Theorems", "RreModel.C15.Theorems2"]
 LEAN_FILES = []          # RreModel/C15/** (incl. Generated/KbLocks.lean) is audited by default
 N = {"quick": 2000, "thorough": 40000}
 EXHAUSTIVE = {"quick": True, "thorough": True}
@@ -74,7 +87,10 @@ RULE = ("cases = corpus + EXHAUSTIVE mutator sequences (add/remove/enable/disabl
         "get_rules_snapshot with get_rules; "
         "and N/8 concurrent histories of 3 threads x 4 calls (mutators and observers incl. get_rules_snapshot, export_to_grl and clone, invocation/response stamps from one atomic "
         "counter, cfg-guarded yield points between lock acquisitions) checked for linearizability against the sequential model by "
-        "exhaustive search over linearizations. Each sequential case is run on KnowledgeBase (real code) and on the Lean model, the "
+        "exhaustive search over linearizations; plus N/16 'readers under contention' histories: two threads of mutators and one thread "
+        "of four read calls dealt round-robin over ALL eleven public read methods (get_rule, get_rules, get_rule_names, rule_count, "
+        "get_rules_by_salience, get_rule_by_index, version, get_statistics, get_rules_snapshot, export_to_grl, clone) — the tags rd_<m> "
+        "count the histories in which method <m> ran while a changing call of another thread was in flight. Each sequential case is run on KnowledgeBase (real code) and on the Lean model, the "
         "observations are diffed, and Spec.runOk (abstract insertion-ordered-list specification) is evaluated on the implementation's "
         "observations. Non-trivial = a duplicate was rejected, a rule was removed, the salience order differs from insertion order, "
         "or >=2 rules stored (sequential); overlapping calls with at least one successful change (concurrent). distinct = distinct case text.")
@@ -83,6 +99,9 @@ TRUSTED = [
     "hand-written model RreModel/C15/Model.lean tied to src/engine/knowledge_base.rs by the correspondence check only (differential testing)",
     "the lock-table translator props/c15.py:extract_lock_table (text-level: comments/strings stripped, brace matching, "
     "`self.<field>.read()/write()` and `self.<method>(` patterns; refuses anything else that touches a lock field)",
+    "the write-footprint reader props/c15.py:extract_write_table (text-level, best effort: per guard variable, uses are classified as "
+    "written (`*g = / += `, a `&mut self` method of Vec/HashMap such as push/insert/remove/clear/sort_by_key/get_mut, `&mut g`), read, or "
+    "not understood; a method with a use that is not understood gets NO row and no claim is made about it)",
     "std::sync::RwLock: mutual exclusion of a writer with everyone else (hypothesis `AdmSafe` of kb_linearizable: a guard is "
     "granted only if compatible with the guards of the other threads), and a free lock is granted to some waiter (hypothesis "
     "`Fair` of the deadlock theorems)",
@@ -101,7 +120,10 @@ ASSUMPTIONS = [
     "schedules with data (Lin.lean): a call = invoke, acquisitions in the row's order, reads of held components at any time before "
     "the body (as early as the lock allows), the body = Model.step on the private copies once every lock of the row is held, writes "
     "of arbitrary intermediate values and finally of the computed values at any time after the body while write-held (as late as "
-    "the lock allows), releases in any order after the body, return. A read that the real code performs after its last acquisition "
+    "the lock allows), releases in any order after the body, return. Progress (Live.lean): the admission policy grants a lock that "
+    "nobody holds to one of the calls waiting for it (AdmLive — true of plain RwLock compatibility: rwAdm_live); the optional loops "
+    "read*/write* of a call are finite (the fairness assumption under which data_machine_terminates_under_fairness yields termination: "
+    "a Rust method body is a terminating sequential program). A read that the real code performs after its last acquisition "
     "returns what a read before it returns (the component is held throughout), so placing all reads before the body loses nothing; "
     "the mutators take all their locks before they touch anything. Composite methods (add_rules_from_grl, clone) are sequences of "
     "such calls and are not calls of the model",
@@ -120,7 +142,13 @@ LEVEL_TEXT = ("Lean 4 theorems (kernel-checked, unbounded: every finite history 
               "strict two-phase locking with footprints implies linearizability w.r.t. the sequential model (real-time order, exact "
               "results, exact final state) — `two_phase_footprint_linearizable`, instantiated for the regenerated table by "
               "`table_footprints_ok` (decide: every row covers the footprint of its Model.step clause, proved sound for all states) "
-              "as `kb_linearizable`; concurrent histories of the real code are in addition checked for linearizability against the model.")
+              "as `kb_linearizable`; concurrent histories of the real code are in addition checked for linearizability against the model. "
+              "Progress of that machine: no reachable configuration is a deadlock (`data_machine_deadlock_free`: some pending call can always "
+              "take a step that brings it closer to its response), every step is progress or one of the two optional stutters (re-read, "
+              "write), at most sum(3|row|+3) progress steps, an infinite execution is eventually only stutters, and an execution that cannot "
+              "be continued has completed every call and is linearizable (`kb_maximal_complete`). The write footprints of the method bodies "
+              "(which components are written through a guard) are re-extracted from the source text on every run and compared with the "
+              "model's footprints and with the lock rows by `decide` (`table_writes_match_model`, `write_guards_all_used`).")
 LEVEL_NOTE = ("Trusted: Lean kernel + {propext, Classical.choice, Quot.sound}; hand-written model tied to the code by differential testing; "
               "text-level lock-table translator; RwLock semantics assumed (a guard is granted only if compatible; a free lock is granted to "
               "some waiter); linearizability is proved for the abstract machine of Lin.lean whose lock programs are the rows of the "
@@ -340,10 +368,177 @@ def extract_lock_table(path):
             errors[name] = "fn %s: %s" % (name, e)
             continue
         table.append((name, acqs, early, comp))
+    extract_lock_table.last = (locks, bodies, direct, dict(errors))
     return locks, table, errors
 
 
-def render_lock_table(locks, table, src_path):
+# ------------------------------------------------------------------------------------------------
+# write-footprint translator: which protected components does a method WRITE through a guard?
+# ------------------------------------------------------------------------------------------------
+# methods of Vec / HashMap / u64 / &mut T that need `&mut self` on the guarded value (a write through the guard) ...
+_MUT_METHODS = {
+    "push", "insert", "remove", "clear", "sort", "sort_by", "sort_by_key", "sort_by_cached_key", "sort_unstable",
+    "sort_unstable_by", "sort_unstable_by_key", "retain", "retain_mut", "truncate", "extend", "extend_from_slice", "pop",
+    "swap", "swap_remove", "drain", "append", "dedup", "dedup_by", "dedup_by_key", "reverse", "resize", "resize_with",
+    "get_mut", "iter_mut", "values_mut", "entry", "first_mut", "last_mut", "as_mut", "as_mut_slice", "deref_mut",
+    "split_off", "fill", "fill_with", "rotate_left", "rotate_right", "remove_entry", "push_str", "take", "replace",
+    "get_or_insert_with", "or_insert", "or_insert_with", "or_default", "and_modify", "copy_from_slice", "clone_from",
+    "splice", "insert_str", "set", "borrow_mut",
+}
+# ... and methods that only need `&self`
+_READ_METHODS = {
+    "len", "get", "iter", "clone", "cloned", "contains_key", "contains", "keys", "values", "is_empty", "first", "last",
+    "to_vec", "to_owned", "as_slice", "as_ref", "binary_search", "binary_search_by", "binary_search_by_key", "capacity",
+    "get_key_value", "starts_with", "ends_with", "cmp", "partial_cmp", "eq", "ne", "lt", "le", "gt", "ge", "to_string",
+    "as_str", "deref", "borrow", "windows", "chunks", "split_at", "split_first", "split_last", "join", "concat",
+    "is_some", "is_none", "hash", "min", "max", "copied", "to_grl", "checked_add", "wrapping_add", "saturating_add",
+}
+_ASSIGN = re.compile(r"\s*(?:=(?!=)|\+=|-=|\*=|/=|%=|\|=|&=(?!&)|\^=|<<=|>>=)")
+
+
+def _classify_place(b, i):
+    """b[i:] is what follows a place expression rooted in a guard (`g`, `*g`, `self.f.write().unwrap()`).
+    Skips `[..]` and `.field` projections. -> ('w' | 'r' | '?', something_consumed)"""
+    n, used = len(b), False
+    while True:
+        m = re.match(r"\s*\[", b[i:])
+        if m:
+            j, depth = i + m.end() - 1, 0
+            while j < n:
+                if b[j] == "[":
+                    depth += 1
+                elif b[j] == "]":
+                    depth -= 1
+                    if depth == 0:
+                        break
+                j += 1
+            if j >= n:
+                return "?", True
+            i, used = j + 1, True
+            continue
+        m = re.match(r"\s*\.\s*(\w+)\s*(\(|::\s*<)?", b[i:])
+        if m:
+            if m.group(2):
+                if m.group(1) in _MUT_METHODS:
+                    return "w", True
+                if m.group(1) in _READ_METHODS:
+                    return "r", True
+                return "?", True
+            if m.group(1) == "await":
+                return "?", True
+            i, used = i + m.end(), True
+            continue
+        break
+    if _ASSIGN.match(b[i:]):
+        return "w", True
+    if re.match(r"\s*\?", b[i:]):
+        return "?", True
+    return "r", used
+
+
+def _classify_use(b, start, end):
+    """one textual use b[start:end] of a guard-rooted place -> 'w' | 'r' | '?' | None (not a use)"""
+    pre = b[:start]
+    if re.search(r"\.\s*$", pre):
+        return None                       # `x.<name>`: a field / method of something else
+    if re.search(r"&\s*mut\s*\*?\s*$", pre):
+        return "w"                        # a mutable borrow of the protected value
+    if re.search(r"\bdrop\s*\(\s*$", pre):
+        return None                       # explicit release (seen by the lock-row extractor)
+    if re.match(r"\s*:(?!:)", b[end:]) or (re.search(r"[|,]\s*(&\s*)?(mut\s+)?$", pre) and re.match(r"\s*\|", b[end:])):
+        return "?"                        # struct-field label / type ascription / closure parameter of the same name
+    deref = bool(re.search(r"\*\s*$", pre))
+    shared = bool(re.search(r"&\s*\*?\s*$", pre))
+    cls, used = _classify_place(b, end)
+    if cls != "r":
+        return cls
+    if used or deref or shared:
+        return "r"
+    return "?"                            # the bare guard moved / passed on: not understood
+
+
+def extract_write_table():
+    """after extract_lock_table: -> ({method: {rank: (mode, 'w'|'r'|'?')}}, {method: why not extracted}).
+    `mode` = strongest mode in which the method acquires the lock of that rank, class = whether the protected value is
+    written through a guard on it ('w'), only read ('r'), or used in a way this text-level reader does not understand ('?').
+    Nested `self.m()` calls are merged in. Never raises for a single method: what is not understood is reported as not
+    extracted (the lock rows are not affected)."""
+    locks, bodies, direct, errors = extract_lock_table.last
+    lockre = "|".join(re.escape(f) for f in locks)
+    rank = {f: i for i, f in enumerate(locks)}
+    own, why = {}, {}
+
+    def merge(d, r, mode, cls):
+        m0, c0 = d.get(r, ("read", "r"))
+        mode = "write" if "write" in (m0, mode) else "read"
+        cls = "w" if "w" in (c0, cls) else ("?" if "?" in (c0, cls) else "r")
+        d[r] = (mode, cls)
+
+    for name, b in bodies.items():
+        if name in errors or name not in direct:
+            why[name] = "no lock row"
+            continue
+        try:
+            d, names_seen = {}, {}
+            for mm in re.finditer(r"\bself\s*\.\s*(%s)\b(?!\s*\()" % lockre, b):
+                tail = b[mm.end():]
+                am = re.match(r"\s*\.\s*(read|write|lock)\s*\(\s*\)\s*\.\s*unwrap\s*\(\s*\)", tail)
+                if not am:
+                    raise ExtractError("acquisition not understood")
+                r = rank[mm.group(1)]
+                mode = "read" if am.group(1) == "read" else "write"
+                acq_end = mm.end() + am.end()
+                pre = b[:mm.start()]
+                lm = re.search(r"\blet\s+(mut\s+)?(\w+)\s*(:[^=]+)?=\s*$", pre)
+                if lm and re.match(r"\s*;", b[acq_end:]):
+                    g = lm.group(2)
+                    if g in names_seen:
+                        raise ExtractError(f"two guards named `{g}`")
+                    names_seen[g] = r
+                    merge(d, r, mode, "r")
+                    scope = b[acq_end:]
+                    if re.search(r"\blet\s+(mut\s+)?%s\b" % re.escape(g), scope) or re.search(r"\b(ref\s+)?(mut\s+)?%s\s*@" % re.escape(g), scope):
+                        merge(d, r, mode, "?")
+                        continue
+                    for um in re.finditer(r"\b%s\b" % re.escape(g), scope):
+                        cls = _classify_use(scope, um.start(), um.end())
+                        if cls:
+                            merge(d, r, mode, cls)
+                else:
+                    # a temporary guard: `*self.f.read().unwrap()`, `self.f.write().unwrap().push(..)`, `*self.f.write().unwrap() += 1`
+                    cls = _classify_use(b, mm.start(), acq_end)
+                    merge(d, r, mode, cls or "?")
+            own[name] = d
+        except ExtractError as e:
+            why[name] = str(e)
+
+    resolved = {}
+
+    def resolve(name, stack):
+        if name in resolved:
+            return resolved[name]
+        if name in stack or name not in own:
+            raise ExtractError("callee %s not extracted" % name)
+        d = dict(own[name])
+        for _, kind, payload in direct[name][0]:
+            if kind == "call":
+                for r, (mode, cls) in resolve(payload, stack + [name]).items():
+                    merge(d, r, mode, cls)
+        resolved[name] = d
+        return d
+
+    out = {}
+    for name in bodies:
+        if name in why:
+            continue
+        try:
+            out[name] = resolve(name, [])
+        except ExtractError as e:
+            why[name] = str(e)
+    return out, why
+
+
+def render_lock_table(locks, table, src_path, writes=None):
     L = ["/- GENERATED on every run by props/c15.py (extract_lock_table) from the CURRENT text of",
          "   src/engine/knowledge_base.rs — do not edit. One row per `fn` of `impl KnowledgeBase` (and of",
          "   `impl Clone for KnowledgeBase`): the `self.<field>.read()/write()` acquisitions in textual order, nested",
@@ -361,6 +556,13 @@ def render_lock_table(locks, table, src_path):
         rows.append('  { name := "%s", acqs := [%s], earlyRelease := %s, composite := %s }'
                     % (name, a, "true" if early else "false", "true" if comp else "false"))
     L.append(",\n".join(rows))
+    L.append("]")
+    L.append("")
+    L.append("/-- per method (rows only for the methods whose body the write-footprint reader understood completely): the ranks")
+    L.append("of the components that the method WRITES through a guard (assignment / `+=` through `*guard`, a `&mut self` method of")
+    L.append("the protected value such as push / insert / remove / clear / sort_by_key / get_mut, a `&mut` borrow) -/")
+    L.append("def kbWrites : List (String × List Nat) := [")
+    L.append(",\n".join('  ("%s", [%s])' % (n, ", ".join(str(r) for r in ws)) for n, ws in (writes or [])))
     L.append("]")
     L.append("")
     L.append("end C15.Generated")
@@ -395,7 +597,23 @@ def pre_lean(ctx):
     dst = os.path.join(root, "lean", "RreModel", "C15", "Generated", "KbLocks.lean")
     try:
         locks, table, row_errors = extract_lock_table(src)
-        text = render_lock_table(locks, table, src)
+        # write footprints (which components a method writes through a guard): a second, independent reading of the
+        # bodies. Whatever it does not understand is "not extracted" (a note) — it never invalidates the lock rows.
+        wrows, wtable, wwhy = [], {}, {}
+        try:
+            wtable, wwhy = extract_write_table()
+            comp_names = {n for n, _, _, comp in table if comp}
+            for name, _, _, comp in table:
+                d = wtable.get(name)
+                if d is None or comp or any(cls == "?" for _, cls in d.values()):
+                    continue
+                if any(mode == "read" and cls == "w" for mode, cls in d.values()):
+                    continue
+                wrows.append((name, sorted(r for r, (mode, cls) in d.items() if cls == "w")))
+        except Exception as e:   # noqa: BLE001 — the reader is best effort by design
+            ctx.notes.append("write-footprint extraction not available: %r" % (e,))
+            wrows, wtable, wwhy = [], {}, {}
+        text = render_lock_table(locks, table, src, wrows)
         if not os.path.exists(dst) or open(dst).read() != text:
             os.makedirs(os.path.dirname(dst), exist_ok=True)
             open(dst, "w").write(text)
@@ -425,6 +643,33 @@ def pre_lean(ctx):
                 ctx.broken.append(("lock-two-phase", f"fn {name} [{shown}] releases a guard before its end (explicit drop / inner-block guard / "
                                    "temporary followed by another acquisition): the method is no longer two-phase, so not atomic "
                                    "(theorems C15.methods_two_phase and C15.table_footprints_ok no longer hold: kb_linearizable does not cover it)"))
+        # write footprints against the guards and against the model (the `decide` theorems C15.write_guards_all_used /
+        # C15.table_writes_match_model over the generated `kbWrites` are the judge; this is the readable diagnosis)
+        fname = lambda r: locks[r] if r < len(locks) else "#%d" % r
+        not_extracted = sorted(set(n for n, d in wtable.items() if any(c == "?" for _, c in d.values())) |
+                               set(n for n in wwhy if n in NEED))
+        ctx.notes.append("write footprints extracted for %d methods (%s)%s" % (
+            len(wrows), ", ".join("%s:{%s}" % (n, ",".join(fname(r) for r in ws)) for n, ws in wrows if ws),
+            "; NOT extracted (no claim made): " + ", ".join(not_extracted) if not_extracted else ""))
+        ctx.write_table = {"rows": {n: [fname(r) for r in ws] for n, ws in wrows}, "not_extracted": not_extracted}
+        for name, d in wtable.items():
+            for r, (mode, cls) in sorted(d.items()):
+                if mode == "write" and cls == "r":
+                    ctx.broken.append(("lock-write-unused", f"fn {name} takes {fname(r)}.write() but never writes through that guard "
+                                       "(only reads): it excludes every reader of the component for nothing, and its lock row claims a "
+                                       "change that the body does not make (theorem C15.write_guards_all_used no longer holds)"))
+                if mode == "read" and cls == "w":
+                    ctx.broken.append(("lock-write-through-read", f"fn {name} writes {fname(r)} through a guard it obtained with .read() "
+                                       "(interior mutability / a lock that is not the one protecting the data?): concurrent readers "
+                                       "can observe the write (theorem C15.write_guards_all_used no longer covers the method)"))
+            if name in NEED and all(c != "?" for _, c in d.values()):
+                we = sorted(r for r, (_, c) in d.items() if c == "w")
+                wm = sorted(r for r, m in NEED[name] if m == "write")
+                if we != wm:
+                    ctx.broken.append(("lock-write-footprint", f"fn {name} writes [{', '.join(fname(r) for r in we)}] through its guards, but "
+                                       f"its sequential behaviour in the model (Model.step, Lin.need) changes [{', '.join(fname(r) for r in wm)}] "
+                                       "(theorem C15.table_writes_match_model no longer holds: the body of the abstract machine is not the "
+                                       "body of the method)"))
         rows = {name: (acqs, early, comp) for name, acqs, early, comp in table}
         for name, need in NEED.items():
             if name not in rows:
@@ -517,6 +762,9 @@ def extra(ctx):
         "what": enum_desc, "cases": total, "agree_and_oracle_ok": agree_n, "nontrivial": nontrivial,
         "failing": sum(c for _, c in by_sig.values()), "wall_s": round(time.time() - t0, 1)}
     lt = getattr(ctx, "lock_table", None)
+    wt = getattr(ctx, "write_table", None)
+    if wt:
+        cov["write_footprints"] = wt
     if lt:
         cov["lock_table"] = {"order": lt[0], "methods": {n: [f"{lt[0][r]}.{m}{'' if t else '(temp)'}" for r, m, t in a] for n, a, _, _ in lt[1]}}
     return fails, cov
